@@ -455,7 +455,9 @@ func (n *norm) flattenStruct(td *typeDecl) bool {
 				return true
 			}
 			if isGenerated(f) {
-				inGenerated = true
+				if _, isLit := par[id].(*ast.CompositeLit); !isLit {
+					inGenerated = true
+				}
 				return true
 			}
 			switch p := par[id].(type) {
@@ -589,10 +591,6 @@ func (n *norm) flattenStruct(td *typeDecl) bool {
 			fv, _ := n.info.Uses[id].(*types.Var)
 			h := fieldOf[fv]
 			if fv == nil || h == nil {
-				return true
-			}
-			if isGenerated(f) {
-				good = false
 				return true
 			}
 			if kv, isKV := par[id].(*ast.KeyValueExpr); isKV && kv.Key == ast.Expr(id) {
@@ -975,7 +973,6 @@ func (n *norm) arrayToStruct(td *typeDecl) bool {
 	var idx []*ast.IndexExpr
 	var lits []*ast.CompositeLit
 	for _, f := range n.files {
-		gen := isGenerated(f)
 		ast.Inspect(f, func(x ast.Node) bool {
 			if !good {
 				return false
@@ -983,7 +980,7 @@ func (n *norm) arrayToStruct(td *typeDecl) bool {
 			switch e := x.(type) {
 			case *ast.IndexExpr:
 				if isA(n.info.TypeOf(e.X)) {
-					if _, ok := constIndex(e.Index); !ok || gen {
+					if _, ok := constIndex(e.Index); !ok {
 						good = false
 					}
 					idx = append(idx, e)
@@ -1007,9 +1004,6 @@ func (n *norm) arrayToStruct(td *typeDecl) bool {
 				}
 			case *ast.CompositeLit:
 				if t := n.info.TypeOf(e); t != nil && types.Identical(t, named) {
-					if gen {
-						good = false
-					}
 					next := int64(0)
 					for _, el := range e.Elts {
 						if kv, isKV := el.(*ast.KeyValueExpr); isKV {
